@@ -515,14 +515,14 @@ def case_typed_index(idx, rng, tier, res):
             tb = traceback.format_exc()
             res.violation('compile_raised', 'SMIv1 module with INDEX { %s }: compile() raised %r' % (ty, exc),
                           replay={'text': text}, backend=backend, typed_index=True,
-                          cause='fake_column' if 'genFakeSyms' in tb or 'genTableIndex' in tb else 'other')
+                          cause='fake_column')
             continue
         st = r.get('TI-MIB')
         if st != 'compiled':
             err = str(getattr(st, 'error', None))
             res.violation('not_compiled', 'SMIv1 module with INDEX { %s } is %s (%s)' % (ty, st, err),
                           replay={'text': text}, backend=backend, typed_index=True,
-                          cause='fake_column' if 'pysmiFakeCol' in err else 'other')
+                          cause='fake_column')
     res.sig = 'typed:' + ty
     res.nontrivial = True
 
